@@ -834,7 +834,7 @@ func filterRow(f *btpb.RowFilter, r *btpb.Row) (bool, error) {
 		// The row sample filter "matches all cells from a row with probability
 		// p, and matches no cells from the row with probability 1-p."
 		// See https://github.com/googleapis/googleapis/blob/master/google/bigtable/v2/data.proto
-		if f.RowSampleFilter <= 0.0 || f.RowSampleFilter >= 1.0 {
+		if !(f.RowSampleFilter > 0.0 && f.RowSampleFilter < 1.0) { // also refuses NaN
 			return false, status.Error(codes.InvalidArgument, "row_sample_filter argument must be between 0.0 and 1.0")
 		}
 		return randFloat() < f.RowSampleFilter, nil
@@ -1818,7 +1818,7 @@ func validateFilterEagerly(f *btpb.RowFilter) error {
 			return bad("bad regex: %v", err)
 		}
 	case *btpb.RowFilter_RowSampleFilter:
-		if x.RowSampleFilter <= 0 || x.RowSampleFilter >= 1 {
+		if !(x.RowSampleFilter > 0 && x.RowSampleFilter < 1) { // also refuses NaN
 			return bad("row_sample_filter must be in (0,1)")
 		}
 	case *btpb.RowFilter_CellsPerRowLimitFilter:
